@@ -145,9 +145,11 @@ type interpreter struct {
 	pools           map[*value][]value        // sync.Pool model: LIFO per pool object
 	syncMaps        map[*value]*omap          // sync.Map model: one insertion-ordered map per sync.Map object
 	fresh           func()                    // symFreshProcess: globals under test back to their initial values
-	osOut           string                    // text written to *os.File through fmt.Fprint* on this path
-	panicOrigin     *ssa.Function             // innermost function in which the pending run-time error arose
-	stubs           map[string]value          // function redirections installed by a harness
+	stdin           []value                   // virtual standard input (symSetStdin)
+	stdinOff        int
+	osOut           string           // text written to *os.File through fmt.Fprint* on this path
+	panicOrigin     *ssa.Function    // innermost function in which the pending run-time error arose
+	stubs           map[string]value // function redirections installed by a harness
 	monitor         *monitor
 	unsupportedSeen map[string]int
 	finfo           map[*ssa.Function]*funcInfo
